@@ -17,6 +17,9 @@
 //!  * `compare(other, f)`: lexicographic comparison of the ascending entry sequences, keys by
 //!    their `compare`, then values by `f` (the OCaml original `flow_map.ml` does exactly this);
 //!    only the sign is observed.  `equal(other, f)`: same keys and `f` holds for every pair;
+//!  * Set.`compare(other, f)`: the same lexicographic order with elements ordered by their
+//!    `compare` and ties (compare == 0) decided by `f`; Set.`equal(other, f)`: pairwise
+//!    compare == 0 and `f` (both as the source spells them; they agree with each other);
 //!  * `exists` over an empty collection is `false`, `forAll` is `true`;
 //!  * `min`/`max`/`minKey`/`maxKey` are the least / greatest key by `compare`;
 //!  * Set.`map f` = { f(x) | x in s }.
@@ -48,13 +51,20 @@ use vcore::trace::{Ending, Limits, Trace};
 use vcore::{refint, tsrun, wasmi};
 
 const PRELUDE: &str = r#"import { Int } from std.boxed;
+import { Comparable } from std.interfaces;
 import { List } from std.list;
 import { Map } from std.map;
 import { Option } from std.option;
 import { Set } from std.set;
 import { Pair, Triple } from std.tuples;
 
+class E(val key: int, val tag: int) : Comparable<E> {
+  method compare(other: E): int = this.key - other.key
+}
+
 class D {
+  function toE(s: Set<Int>, m: int): Set<E> =
+    s.fold(Set.empty<E>(), (acc, x) -> acc.insert(E.init(x.value, x.value % m)))
   function si(v: int): Str = Str.fromInt(v)
   function ss(v: Str): Str = v
   function sk(k: Int): Str = Str.fromInt(k.value)
@@ -631,16 +641,25 @@ fn emit_step(kind: Kind, n: usize, op: &Op, cur: &mut [String; 3], out: &mut Str
       }
     }
     "set.compare" => {
-      let f = if code == 0 { "x.compare(y)" } else { "y.value - x.value" };
-      pl!("Q", &format!("D.sgn({a}.compare({b}, (x, y) -> {f}))"))
+      if code == 2 {
+        // elements whose `compare` looks at the key only; `f` compares the tag (x % 3 against x % 2)
+        pl!("Q", &format!("D.sgn(D.toE({a}, 3).compare(D.toE({b}, 2), (p, q) -> p.tag - q.tag))"))
+      } else {
+        let f = if code == 0 { "x.compare(y)" } else { "y.value - x.value" };
+        pl!("Q", &format!("D.sgn({a}.compare({b}, (x, y) -> {f}))"))
+      }
     }
     "set.equal" => {
-      let f = match code {
-        0 => "x.value == y.value",
-        1 => "true",
-        _ => "false",
-      };
-      pl!("Q", &format!("D.sb({a}.equal({b}, (x, y) -> {f}))"))
+      if code == 3 {
+        pl!("Q", &format!("D.sb(D.toE({a}, 3).equal(D.toE({b}, 2), (p, q) -> p.tag == q.tag))"))
+      } else {
+        let f = match code {
+          0 => "x.value == y.value",
+          1 => "true",
+          _ => "false",
+        };
+        pl!("Q", &format!("D.sb({a}.equal({b}, (x, y) -> {f}))"))
+      }
     }
     "set.iter" => out.push_str(&format!("    {a}.iter((x) -> Process.println(\"{n}:I \" :: D.sk(x)));\n")),
     "set.fold" => {
@@ -1034,6 +1053,10 @@ fn model_step(kind: Kind, regs: &mut [Coll], op: &Op, selftest: bool) -> Vec<(ch
                 if x != y {
                   break (*x as i64) - (*y as i64);
                 }
+                // code 2: elements equal by `compare` (same key) are ordered by f on their tags
+                if code == 2 && x % 3 != x % 2 {
+                  break (x % 3 - x % 2) as i64;
+                }
               }
             }
           };
@@ -1045,6 +1068,7 @@ fn model_step(kind: Kind, regs: &mut [Coll], op: &Op, selftest: bool) -> Vec<(ch
               x == y
                 && match code {
                   0 | 1 => true,
+                  3 => x % 3 == x % 2,
                   _ => false,
                 }
             });
@@ -1283,8 +1307,10 @@ fn gen_op(rng: &mut Rng, kind: Kind, cfg: &GenCfg, regs: &[Coll], forced: Option
   }
   op.code = match name {
     "map.merge" | "map.update" | "map.customizedUnion" | "map.map" | "list.map" => rng.below(5) as u8,
-    "map.compare" | "set.compare" | "map.fold" | "set.fold" | "list.fold" | "list.foldRight" | "list.contains" | "list.filterMap" => rng.below(2) as u8,
-    "map.equal" | "set.equal" | "list.bind" => rng.below(3) as u8,
+    "set.compare" => rng.below(3) as u8,
+    "set.equal" => rng.below(4) as u8,
+    "map.compare" | "map.fold" | "set.fold" | "list.fold" | "list.foldRight" | "list.contains" | "list.filterMap" => rng.below(2) as u8,
+    "map.equal" | "list.bind" => rng.below(3) as u8,
     "set.map" => rng.below(4) as u8,
     _ => rng.below(6) as u8,
   };
